@@ -572,18 +572,19 @@ public:
       abs_dom_t callee_ctx_inv(this->m_inv);
       // --- matching formal and actual parameters
       // XXX: propagating down
-      unsigned i = 0;
       const std::vector<variable_t> &inputs = summ.get_inputs();
-      for (const variable_t &p : inputs) {
-        const variable_t &a = cs.get_arg_name(i);
-        if (!(a == p)) {
-          inter_transformer_helpers<abs_dom_t>::unify(callee_ctx_inv, p, a);
+      {
+        // simultaneous assignment through the summary's fresh input names
+        const std::vector<variable_t> &tmps = summ.get_renamed_inputs();
+        unsigned i = 0;
+        for (const variable_t &t : tmps) {
+          const variable_t &a = cs.get_arg_name(i);
+          inter_transformer_helpers<abs_dom_t>::unify(callee_ctx_inv, t, a);
+          ++i;
         }
-        ++i;
+        callee_ctx_inv.project(tmps);
+        callee_ctx_inv.rename(tmps, inputs);
       }
-
-      // --- project only onto formal parameters
-      callee_ctx_inv.project(inputs);
       // --- store the callee context
       CRAB_LOG("inter", crab::outs() << "\t\tCallee context stored: "
                                      << callee_ctx_inv << "\n");
